@@ -368,7 +368,7 @@ fn check_estimate(cfg: &Cfg, b: &Built, st: &mut Stats) {
     };
     match guarded(|| b.model.estimate_traversal((&v0, &v1), &mut state, &b.sm)) {
         Ok(Ok(())) => {
-            let d_m = routee_compass_core::util::geo::haversine::haversine_distance_meters(0.0, 0.0, 0.02, 0.01).map(|d| d.as_f64()).unwrap_or(f64::NAN);
+            let d_m = ru::great_circle_m(0.0, 0.0, 0.02f32 as f64, 0.01f32 as f64);
             let want = b.ideal_a * d_m / ru::distance_m(&ru::rate_distance_unit(&b.rate_unit_a));
             let name = if cfg.vehicle == "ice" { "energy_liquid" } else { "energy_electric" }.to_string();
             let got = b.sm.get_energy(&state, &name, &ru::rate_energy_unit(&b.rate_unit_a)).map(|e| e.as_f64()).unwrap_or(f64::NAN);
